@@ -172,14 +172,15 @@ func (fx *FX) enterLoop(fr *frame, li *loopInfo, b *ssa.BasicBlock, ins []*State
 	log := fx.trialRun(fr, li, entry)
 	st := entry.clone()
 	st.reach = fx.define(fmt.Sprintf("r_loop%d", li.ord), entry.reach)
-	if log.all {
-		fx.havoc(st, []string{"*"})
-	} else {
+	{
 		var ks []string
 		for k := range log.comps {
 			ks = append(ks, k)
 		}
 		sort.Strings(ks)
+		if log.all {
+			ks = append([]string{"*"}, ks...)
+		}
 		fx.havoc(st, ks)
 	}
 	for a := range log.cells {
